@@ -19,7 +19,7 @@ import itertools
 
 import z3
 
-from pyvc.engine import (Ctx, PyObj, Model, Namespace, Obj, run_function, run_stmts, find_function, Closure, Env, Undecided,
+from pyvc.engine import (LoopSpec, SeqList, SymList, Ctx, PyObj, Model, Namespace, Obj, run_function, run_stmts, find_function, Closure, Env, Undecided,
                          PyRaise, ExcValue, ExcClass, unparse)
 from pyvc.values import Sym, And, Or, Not, Implies, ite, NaN, NaNType
 from pyvc import lib
@@ -32,7 +32,9 @@ FILE = "AegeanTools/cluster.py"
 ASSUMPTIONS = [
     "sklearn.cluster.DBSCAN(eps, min_samples=1).fit(X).labels_: two rows share a label iff they are chain-connected through rows "
     "at Euclidean distance <= eps; labels are 0..k-1 (no noise label)",
-    "bounded: grouping/relabelling of regroup_dbscan for catalogues of exactly 3 sources (all label patterns, symbolic fluxes)",
+    "python: iterating set(labels) yields every distinct label exactly once; sorted(group, key) is a permutation of the group with "
+    "non-decreasing keys; list(map(srccat.__getitem__, np.where(flags)[0])) lists the flagged sources in catalogue order",
+    "bounded (reported separately): grouping/relabelling additionally executed for catalogues of exactly 3 sources (all label patterns)",
     "regroup / regroup_vectorized (greedy elliptical-distance variant): not under contract, native cross-check only",
     "floats as reals; numpy elementwise trig on arrays is pointwise",
 ]
@@ -209,6 +211,217 @@ def t_regroup_dbscan(ctx):
                    all(s.fields[k] is b0[k] for k in b0 if k not in ('island', 'source')) and set(s.fields) == set(b0))
 
 
+# ---------------------------------------------------------------------------
+# regroup_dbscan for catalogues of ANY length: the grouping loop and the relabelling loops (generic iterations)
+# ---------------------------------------------------------------------------
+
+I_ = z3.IntSort()
+LAB = z3.Function('dbscan_label', I_, I_)                 # label of source k
+UL = z3.Function('unique_label', I_, I_)                  # i-th element of set(labels) in iteration order
+IDX = z3.Function('position_of_label_in_the_set', I_, I_)
+FLUX = z3.Function('peak_flux_of', I_, z3.RealSort())
+PI = z3.Function('sorted_member', I_, I_, I_)             # PI(i, c): catalogue index of the c-th member of group i after sorting
+CNT = z3.Function('group_size', I_, I_)
+
+
+class SubSeq(PyObj):
+    """[srccat[k] for k in range(n) if cond(k)], in catalogue order"""
+    typename = 'list'
+
+    def __init__(self, cond, gid=None):
+        self.cond, self.gid = cond, gid
+
+    def tolist_(self, ctx):
+        return self
+
+
+class Sel(PyObj):
+    """np.where(flags)[0]"""
+
+    def __init__(self, cond):
+        self.cond = cond
+
+    def getitem_(self, ctx, k):
+        if k == 0:
+            return self
+        raise Undecided("np.where(...)[%r]" % (k,))
+
+    def map_obj_(self, ctx, f):
+        if getattr(f, 'is_cat_getitem', False):
+            return SubSeq(self.cond)
+        raise Undecided("map over selected positions with an unmodelled function")
+
+
+def t_regroup_generic(ctx):
+    reset_uids()
+    fn = find_function(FILE, 'regroup_dbscan')
+    body = fn.body
+    a = next((k for k, st in enumerate(body) if isinstance(st, ast.Assign) and unparse(st.targets[0]) == 'labels'), None)
+    loops = [k for k, st in enumerate(body) if isinstance(st, ast.For)]
+    if a is None or len(loops) < 2:
+        raise Undecided("regroup_dbscan: labels assignment / loops not found")
+    n, m = Sym(z3.Int('n_sources')), Sym(z3.Int('n_groups'))
+    ctx.assume(And(n >= 1, m >= 1, m <= n))
+    labels = SArr("labels", (n,), lambda idx: Sym(LAB(Sym.lift(idx[0]))))
+    # python set contract: set(labels) holds every label exactly once
+    ctx.ufacts.append(lambda t: Implies(And(t[0] >= 0, t[0] < n),
+                                        And(Sym(IDX(Sym.lift(t[0]))) >= 0, Sym(IDX(Sym.lift(t[0]))) < m,
+                                            Sym(UL(IDX(Sym.lift(t[0]))) == LAB(Sym.lift(t[0]))))))
+    ia, ib = Sym(z3.Int('ia')), Sym(z3.Int('ib'))
+    inj = Implies(And(ia >= 0, ia < m, ib >= 0, ib < m, Sym(UL(ia.e) == UL(ib.e))), ia == ib)
+
+    class USet(PyObj):
+        def len_(s, c):
+            return m
+
+        def enumerate_(s, c, start=0):
+            return SeqList(c, m, lambda k: (k + start, Sym(UL(Sym.lift(k)))))
+
+    class Cat(PyObj):
+        def getattr_(s, c, name):
+            if name == '__getitem__':
+                f = Model(lambda c2, k: CatSrc(k), 'srccat.__getitem__')
+                f.is_cat_getitem = True
+                return f
+            raise Undecided("catalogue." + name)
+
+        def len_(s, c):
+            return n
+    stores = {'island': [], 'source': []}
+
+    class CatSrc(PyObj):
+        def __init__(s, k):
+            s.k = k
+
+        def getattr_(s, c, name):
+            if name == 'peak_flux':
+                return Sym(FLUX(Sym.lift(s.k)), True)
+            raise Undecided("source." + name)
+
+        def setattr_(s, c, name, v):
+            if name in stores:
+                stores[name].append((s.k, v))
+                return
+            raise Undecided("assignment to source." + name)
+
+    def m_where(c, cond):
+        if isinstance(cond, SArr) and len(cond.shape_) == 1:
+            b = cond.snapshot()
+            return (Sel(lambda k: b.at((k,))),)
+        raise Undecided("np.where")
+    st = {}
+    g = {'np': lib.std_np(where=Model(m_where)), 'set': Model(lambda c, x=(): USet() if x is labels else (_ for _ in ()).throw(Undecided("set()"))),
+         'log': Namespace('log')}
+    # ---- region A: grouping ----
+    def beforeA(c, env, k):
+        st['groups'] = env.lookup('groups')
+        st['w0'] = len(st['groups'].writes)
+
+    def afterA(c, env, k):
+        gr = st['groups']
+        new = gr.writes[st['w0']:]
+        ok = env.lookup('groups') is gr and len(new) == 1 and isinstance(new[0][1], SubSeq)
+        c.oblige("post", "regroup.generic.one_group_stored_per_label", ok)
+        if not ok:
+            return
+        pos, sub = new[0]
+        kk = c.fresh_int("member")
+        c.assume(And(kk >= 0, kk < n))
+        c.oblige("post", "regroup.generic.group_i_is_stored_at_position_i_and_holds_exactly_the_sources_with_label_i",
+                 And(pos == k, sub.cond(kk) == Sym(LAB(kk.e) == UL(Sym.lift(k)))))
+    specA = LoopSpec(lambda c, env, k: [], label="grouping", modifies=lambda c, env: [st['groups']], types={'i': 'int', 'l': 'int'})
+    specA.before_body, specA.after_body = beforeA, afterA
+    ctx.interp.loops["for (i, l) in enumerate(unique_labels)"] = specA
+    ctx.interp.loops["for i, l in enumerate(unique_labels)"] = specA
+    db = Obj('DBSCAN', labels_=labels)
+    outA = run_stmts(ctx, FILE, 'regroup_dbscan', body[a:loops[0] + 1], {'db': db, 'srccat': Cat()}, globals_=g,
+                     region_desc="grouping: one list per distinct label")
+    if outA.kind != 'fallthrough':
+        ctx.oblige("safe", "regroup.generic.grouping_no_exception", False)
+        return
+    groups = outA.env.lookup('groups')
+    ctx.oblige("post", "regroup.generic.as_many_groups_as_distinct_labels", Sym(Sym.lift(groups.length) == m.e) if isinstance(groups, SymList) else False)
+    # partition lemma (from the set contract): every source is in exactly one group
+    kq = ctx.fresh_int("src")
+    ctx.assume(And(kq >= 0, kq < n))
+    ctx.assume(inj)
+    ctx.oblige("lemma", "regroup.generic.every_source_in_exactly_one_group",
+               And(Sym(UL(IDX(kq.e)) == LAB(kq.e)), Implies(And(ia >= 0, ia < m, Sym(UL(ia.e) == LAB(kq.e)), ib == Sym(IDX(kq.e))), ia == ib)),
+               at=[(kq,)])
+    # ---- region B: relabelling ----
+    def item_group(i):
+        return SubSeq(lambda k, i=i: Sym(LAB(Sym.lift(k)) == UL(Sym.lift(i))), gid=i)
+    groupsB = SeqList(ctx, m, item_group)
+    keyseen = []
+
+    def m_sorted(c, grp, key=None, reverse=False):
+        if not isinstance(grp, SubSeq) or grp.gid is None or reverse or key is None:
+            raise Undecided("sorted() of something else than a group with a key")
+        i = grp.gid
+        cnt = Sym(CNT(Sym.lift(i)))
+        c.assume(cnt >= 1)
+        probe = c.fresh_int("any_member")
+        kv = c.interp.call(key, [CatSrc(probe)], {})
+        keyseen.append((probe, kv))
+        # the sort key is minus the peak flux: with the sorted() contract (a permutation of the group, keys non-decreasing) the
+        # components of a group are numbered by non-increasing peak flux
+        c.oblige("post", "relabel.generic.sort_key_is_minus_peak_flux",
+                 kv == -Sym(FLUX(probe.e), True) if isinstance(kv, Sym) else False)
+
+        def item(cpos):
+            return CatSrc(Sym(PI(Sym.lift(i), Sym.lift(cpos))))
+        out = SeqList(c, cnt, item)
+        out.gid = i
+        return out
+    stB = {}
+
+    def beforeB(c, env, k):
+        stB['w'] = {q: len(v) for q, v in stores.items()}
+
+    def afterB(c, env, k):
+        i = stB['i']
+        new = {q: stores[q][stB['w'][q]:] for q in stores}
+        ok = all(len(v) == 1 for v in new.values())
+        c.oblige("post", "relabel.generic.exactly_island_and_source_of_this_member_are_written", ok)
+        if not ok:
+            return
+        me = Sym(PI(Sym.lift(i), Sym.lift(k)))
+        c.oblige("post", "relabel.generic.member_c_of_sorted_group_i_gets_island_i_source_c",
+                 And(new['island'][0][0] == me, new['island'][0][1] == i, new['source'][0][0] == me, new['source'][0][1] == k))
+    specB = LoopSpec(lambda c, env, k: [], label="relabel", modifies=lambda c, env: [], types={'comp': 'int'})
+    specB.before_body, specB.after_body = beforeB, afterB
+
+    def beforeO(c, env, k):
+        stB['i'] = k
+        stB['isl0'] = len(env.lookup('islands'))
+
+    def afterO(c, env, k):
+        isl = env.lookup('islands')
+        c.oblige("post", "relabel.generic.each_group_is_returned_once", isinstance(isl, list) and len(isl) == stB['isl0'] + 1 and
+                 isinstance(isl[-1], SubSeq) and isl[-1].gid is k)
+    specO = LoopSpec(lambda c, env, k: [], label="groups", modifies=lambda c, env: [env.vars.get('islands')], types={'isle': 'int'},
+                     havoc=lambda c, env: env.vars.__setitem__('islands', []))
+    specO.before_body, specO.after_body = beforeO, afterO
+    for key in ("for (isle, group) in enumerate(groups)", "for isle, group in enumerate(groups)"):
+        ctx.interp.loops[key] = specO
+    ctx.interp.loops["for (comp, src) in enumerate(sorted(*"] = specB
+    ctx.interp.loops["for comp, src in enumerate(sorted(*"] = specB
+    gB = dict(g)
+    gB['sorted'] = Model(m_sorted, 'sorted')
+    outB = run_stmts(ctx, FILE, 'regroup_dbscan', body[loops[0] + 1:loops[1] + 1], {'groups': groupsB, 'srccat': Cat()}, globals_=gB,
+                     region_desc="relabelling: island = group index, source = rank by decreasing peak flux")
+    if outB.kind not in ('fallthrough',):
+        ctx.oblige("safe", "relabel.generic.no_exception", False)
+        return
+    i_, c1, c2 = Sym(z3.Int('grp')), Sym(z3.Int('c1')), Sym(z3.Int('c2'))
+    # sorted() contract instantiated for this key
+    sorted_contract = Implies(And(c1 >= 0, c1 <= c2, c2 < Sym(CNT(i_.e))),
+                              Sym(-FLUX(PI(i_.e, c1.e)) <= -FLUX(PI(i_.e, c2.e))))
+    ctx.assume(sorted_contract)
+    ctx.oblige("lemma", "relabel.generic.lower_source_number_means_no_smaller_peak_flux",
+               Implies(And(c1 >= 0, c1 <= c2, c2 < Sym(CNT(i_.e))), Sym(FLUX(PI(i_.e, c1.e)) >= FLUX(PI(i_.e, c2.e)))))
+
+
 def t_chord_lemma(ctx):
     """|v1 - v2|^2 = 4 * haversine argument of the separation (the 'a' of angle_tools.gcd, see C17)"""
     ra1, d1, ra2, d2 = sym('ra1'), sym('dec1'), sym('ra2'), sym('dec2')
@@ -314,7 +527,8 @@ def _where_flags(ctx, fl):
 
 
 def verify(S):
-    for name, fn in (("cluster.regroup_dbscan", t_regroup_dbscan), ("cluster.regroup_dbscan", t_chord_lemma),
+    for name, fn in (("cluster.regroup_dbscan", t_regroup_dbscan), ("cluster.regroup_dbscan[any length]", t_regroup_generic),
+                     ("cluster.regroup_dbscan", t_chord_lemma),
                      ("cluster.eps_conversion", t_eps_conversion), ("cluster.resize", t_resize)):
         if S.only and S.only not in name:
             continue
